@@ -72,19 +72,26 @@ def execute(mod, cfg, seed=None, prescribed=None):
 
 
 def _worker(args):
-    modname, tier, base_seed, indices, cfg, wall_deadline, enum_items = args
+    modname, tier, base_seed, indices, cfg, wall_deadline, _ = args
     faulthandler.enable()
     faulthandler.dump_traceback_later(max(60.0, wall_deadline - time.time() + 120.0), exit=True)
     import importlib
     mod = importlib.import_module(modname)
     agg = _new_agg()
+    enum_items = None
     try:
-        for item in indices:
+        wk, nw, n_enum, n_runs = indices
+        import itertools
+        plan = itertools.chain((("e", i) for i in range(wk, n_enum, nw)),
+                               range(wk, n_runs, nw))
+        for item in plan:
             if time.time() > wall_deadline:
                 agg["wall_capped"] = True
                 break
             if isinstance(item, tuple):      # enumerated prefix
                 _, idx = item
+                if enum_items is None:
+                    enum_items = mod.ENUM(tier)
                 prefix = enum_items[idx]
                 seed = derive_seed(base_seed, mod.PROPERTY, "enum", idx)
                 ch = _PrefixChoices(prefix, seed)
@@ -148,13 +155,17 @@ def _fold(agg, res, index, dt):
     if len(agg["digests"]) < 64:
         agg["digests"].append((str(index), res.get("digest")))
     if res.get("violations"):
-        if len(agg["violations"]) < 20:
+        sigs = [sg for sg, _ in res["violations"]]
+        cnt = agg.setdefault("sig_counts", {})
+        keep = False
+        for sg in sigs:
+            cnt[sg] = cnt.get(sg, 0) + 1
+            if cnt[sg] <= 3:
+                keep = True
+        if keep and len(agg["violations"]) < 400:
             agg["violations"].append({"index": index, "violations": res["violations"],
                                       "choices": res["choices"], "digest": res.get("digest"),
                                       "sample": res.get("sample")})
-        else:
-            agg.setdefault("violations_dropped", 0)
-            agg["violations_dropped"] += 1
 
 
 def _merge(total, part):
@@ -169,6 +180,9 @@ def _merge(total, part):
     total["sim_s"] += part["sim_s"]
     total["run_s"] += part["run_s"]
     total["violations"].extend(part["violations"])
+    tc = total.setdefault("sig_counts", {})
+    for k, v in part.get("sig_counts", {}).items():
+        tc[k] = tc.get(k, 0) + v
     total["samples"].extend(part["samples"])
     total["digests"].extend(part["digests"])
     total["harness_errors"].extend(part["harness_errors"])
@@ -182,16 +196,16 @@ def run_batch(mod, tier, base_seed, runs=None, wall=None, nworkers=None):
     nworkers = nworkers or NWORKERS
     cfg = mod.SIM_CFG(tier) if hasattr(mod, "SIM_CFG") else {}
     enum_items = mod.ENUM(tier) if hasattr(mod, "ENUM") else []
-    items = [("e", i) for i in range(len(enum_items))] + list(range(runs))
+    n_items = len(enum_items) + runs
     deadline = time.time() + wall
-    nworkers = max(1, min(nworkers, len(items)))
-    shards = [items[w::nworkers] for w in range(nworkers)]
+    nworkers = max(1, min(nworkers, n_items))
+    shards = [(w, nworkers, len(enum_items), runs) for w in range(nworkers)]
     total = _new_agg()
     ctx = multiprocessing.get_context("fork")
     try:
         with ProcessPoolExecutor(max_workers=nworkers, mp_context=ctx) as ex:
             futs = [ex.submit(_worker, (mod.__name__, tier, base_seed, sh, cfg, deadline,
-                                        enum_items)) for sh in shards]
+                                        None)) for sh in shards]
             for f in futs:
                 part = f.result(timeout=wall + 300)
                 part["states"] = set(part["states"])
@@ -200,7 +214,7 @@ def run_batch(mod, tier, base_seed, runs=None, wall=None, nworkers=None):
     except Exception as e:
         raise HarnessError("worker pool failed: %r" % (e,))
     total["enum"] = len(enum_items)
-    total["planned"] = len(items)
+    total["planned"] = n_items
     return total, cfg
 
 
@@ -468,12 +482,17 @@ def main(mod):
         if sig in known:
             known_printed.append(sig)
             print("KNOWN-FINDING: property=%s %s [%s] (%d occurrence(s) this run)" % (
-                mod.PROPERTY, known[sig], sig, len(by_sig[sig])))
+                mod.PROPERTY, known[sig], sig,
+                total.get("sig_counts", {}).get(sig, len(by_sig[sig]))))
         else:
             new_sigs.append(sig)
     exit_code = 0
     nviol = 0
-    for sig in new_sigs[:8]:
+    if new_sigs:
+        print("violation signatures: " + ", ".join(
+            "%s x%d" % (sg, total.get("sig_counts", {}).get(sg, len(by_sig[sg])))
+            for sg in new_sigs))
+    for sig in new_sigs[:int(os.environ.get("VERIF_MAX_REPORTS", "8"))]:
         v, detail = min(by_sig[sig], key=lambda x: len(x[0]["choices"]))
         small, execs = shrink(mod, cfg, v["choices"], sig,
                               budget_s=float(os.environ.get("VERIF_SHRINK_S", "20")))
@@ -483,7 +502,7 @@ def main(mod):
         print("  minimised %d -> %d choices in %d executions" % (
             len(v["choices"]), len(small), execs))
         print("VIOLATION property=%s replay=%s" % (mod.PROPERTY, path))
-        nviol += len(by_sig[sig])
+        nviol += total.get("sig_counts", {}).get(sig, len(by_sig[sig]))
         exit_code = 1
     mutants = None
     if a.tier == "thorough" and exit_code == 0 and hasattr(mod, "MUTANTS") \
